@@ -512,6 +512,10 @@ class ThreadPoolServer(Server):
             self.logger.debug("Created connection to %s with fd %d", addrinfo, fd)
             with self._fd_to_conn_lock:
                 self.fd_to_conn[fd] = conn
+            if self._closed:
+                # close() ran while this connection was being set up and may have walked fd_to_conn already
+                self._drop_connection(fd, conn)
+                return
             self._add_inactive_connection(fd)
             self.clients.clear()
         except Exception:
